@@ -180,6 +180,7 @@ package limit
 //@   ensures[C06] drop_progress: didDrop && old(l.estimatedLimit) >= 2.0 ==> l.estimatedLimit <= old(l.estimatedLimit) - l.smoothing
 //@   ensures[C06] drop_floor: didDrop && old(l.estimatedLimit) < 2.0 ==> l.estimatedLimit < 2.0
 //@   ensures[C07] gate: !didDrop && float64(inFlight) * 2.0 < old(l.estimatedLimit) ==> l.estimatedLimit == old(l.estimatedLimit)
+//@   ensures[C07] growth_at_baseline: !didDrop && float64(inFlight) * 2.0 >= old(l.estimatedLimit) && float64(rtt) == vegasBase(l) ==> l.estimatedLimit == (1.0 - l.smoothing) * old(l.estimatedLimit) + l.smoothing * max(1.0, min(float64(l.maxLimit), old(l.estimatedLimit) + float64(apply(l.betaFunc, "limit.VegasLimit.betaFunc", int(old(l.estimatedLimit))))))
 //@   ensures[C15] baseline_untouched: l.rttNoLoad == old(l.rttNoLoad) && vegasBase(l) == old(vegasBase(l)) && l.probeCount == old(l.probeCount) && l.probeJitter == old(l.probeJitter)
 //@   ensures[C16] notified: int(l.estimatedLimit) != int(old(l.estimatedLimit)) ==> allDelivered(l.listeners, int(l.estimatedLimit))
 //@   ensures[C16] listeners_kept: l.listeners == old(l.listeners)
